@@ -16,8 +16,9 @@ SPEC = {
         'full). T14: with a closed typed may-raise table, every path through URL.__init__/parse_url/parse_host/'
         'unquote/unquote_to_bytes leaves with URLParseError only, and every URL() call in find_all_links is inside a '
         'URLParseError handler. Not decided: round-trip equality for every string (NFC, IDNA, IPv6 forms), fixed '
-        'points on arbitrary RFC texts, lone surrogates.'),
-    'decided': ['T12 character x component matrix (writer tables vs reader delimiters)', 'T12 hex tables and wiring',
+        'points on arbitrary RFC texts, lone surrogates.'
+        " T9.plus: in parse_qsl '+' becomes a space before percent-decoding."),
+    'decided': ['plus-before-unquote order', 'T12 character x component matrix (writer tables vs reader delimiters)', 'T12 hex tables and wiring',
                 'T13 sanitizer flow', 'T14 exception escape'],
     'declined': ['round-trip equality for every input string', 'IDNA / IPv6 textual forms', 'lone surrogates'],
     'trusted_base': ['RFC 3986 character classes (frozen table)', 're._parser AST of this interpreter',
